@@ -29,6 +29,71 @@ def _sizeof(t: str) -> Optional[int]:
     return _ELEM.get(t)
 
 
+# LP64, little-endian: (size in bytes, kind) - i signed, u unsigned, b bool, f floating
+C_TYPES = {"char": (1, "i"), "signed char": (1, "i"), "unsigned char": (1, "u"), "bool": (1, "b"), "short": (2, "i"), "unsigned short": (2, "u"),
+           "int": (4, "i"), "unsigned int": (4, "u"), "unsigned": (4, "u"), "long": (8, "i"), "unsigned long": (8, "u"), "long long": (8, "i"),
+           "unsigned long long": (8, "u"), "float": (4, "f"), "double": (8, "f")}
+C_ALIASES = {"size_t": "unsigned long", "std::size_t": "unsigned long", "mwSize": "unsigned long", "mwIndex": "unsigned long", "std::int64_t": "long",
+             "int64_t": "long", "std::uint64_t": "unsigned long", "uint64_t": "unsigned long", "std::int32_t": "int", "int32_t": "int",
+             "std::uint32_t": "unsigned int", "uint32_t": "unsigned int", "std::int16_t": "short", "int16_t": "short", "std::uint16_t": "unsigned short",
+             "uint16_t": "unsigned short", "std::int8_t": "signed char", "int8_t": "signed char", "std::uint8_t": "unsigned char", "uint8_t": "unsigned char",
+             "mxLogical": "bool", "mxChar": "unsigned short", "mxClassID": "int", "mxComplexity": "int"}
+MX_CLASSES = {"mxINT8_CLASS": (1, "i"), "mxUINT8_CLASS": (1, "u"), "mxINT16_CLASS": (2, "i"), "mxUINT16_CLASS": (2, "u"), "mxINT32_CLASS": (4, "i"),
+              "mxUINT32_CLASS": (4, "u"), "mxINT64_CLASS": (8, "i"), "mxUINT64_CLASS": (8, "u"), "mxLOGICAL_CLASS": (1, "b"), "mxCHAR_CLASS": (2, "u"),
+              "mxDOUBLE_CLASS": (8, "f"), "mxSINGLE_CLASS": (4, "f")}
+
+
+def c_type(name: str, tmap: Optional[Dict[str, str]] = None):
+    """(size, kind) of an arithmetic C type name, None for anything else (pointers, classes)."""
+    t = (name or "").replace("const ", "").replace("volatile ", "").replace("&", "").strip()
+    if tmap and t in tmap:
+        t = tmap[t].replace("const ", "").replace("&", "").strip()
+    t = C_ALIASES.get(t, t)
+    return C_TYPES.get(t)
+
+
+def c_convert(v, spec):
+    """The C++ conversion of an arithmetic value to the type (size, kind); values that are not numbers pass through."""
+    if spec is None or isinstance(v, bool) and spec[1] == "b":
+        return v
+    if not isinstance(v, (int, float, bool)):
+        return v
+    size, kind = spec
+    if kind == "b":
+        return v != 0
+    if kind == "f":
+        import struct
+        fv = float(v)
+        return struct.unpack("<f", struct.pack("<f", fv))[0] if size == 4 else fv
+    if isinstance(v, float):
+        if v != v or v in (float("inf"), float("-inf")):
+            raise CUnknown("conversion of a non-finite value to an integer")
+        v = int(v)                                        # towards zero
+    v = int(v) & ((1 << (8 * size)) - 1)
+    if kind == "i" and v >= 1 << (8 * size - 1):
+        v -= 1 << (8 * size)
+    return v
+
+
+def raw_decode(b: bytes, spec):
+    import struct
+    size, kind = spec
+    if kind == "f":
+        return struct.unpack("<d" if size == 8 else "<f", bytes(b))[0]
+    v = int.from_bytes(bytes(b), "little", signed=(kind == "i"))
+    return (v != 0) if kind == "b" else v
+
+
+def raw_encode(v, spec) -> bytes:
+    import struct
+    size, kind = spec
+    if kind == "f":
+        return struct.pack("<d" if size == 8 else "<f", float(v))
+    if kind == "b":
+        return bytes([1 if v else 0])
+    return (int(c_convert(v, spec)) & ((1 << (8 * size)) - 1)).to_bytes(size, "little")
+
+
 class CUnknown(Exception):
     pass
 
@@ -61,11 +126,29 @@ class MxArray:
         self.dims = list(dims) if dims is not None else [m, n]
         self.data: List[object] = list(cells) if cells is not None else [0.0] * (m * n)
         self.oob: List[str] = []
+        self.raw: Optional[bytearray] = None               # byte-level storage (typed mode): element size from the class
+
+    @staticmethod
+    def numeric(cls: str, values: List[object], dims: Optional[List[int]] = None) -> "MxArray":
+        """An array of class `cls` holding `values`, stored as bytes (little-endian, zero-initialised like mxCreateNumeric*)."""
+        spec = MX_CLASSES[cls]
+        a = MxArray(0, 0, list(values), cls=cls, dims=dims or [1 if values else 0, len(values)])
+        a.raw = bytearray(b"".join(raw_encode(v, spec) for v in values))
+        return a
+
+    def element(self, k: int = 0):
+        spec = MX_CLASSES.get(self.cls)
+        if self.raw is None or spec is None:
+            return self.data[k] if 0 <= k < len(self.data) else None
+        if (k + 1) * spec[0] > len(self.raw):
+            return None
+        return raw_decode(self.raw[k * spec[0]:(k + 1) * spec[0]], spec)
 
 
 class Ptr:
-    def __init__(self, arr: MxArray, off: int = 0):
+    def __init__(self, arr: MxArray, off: int = 0, ctype=None):
         self.arr, self.off = arr, off
+        self.ctype = ctype                                 # (size, kind) of the pointee for a typed pointer into byte storage
 
 
 class Dense:
@@ -97,6 +180,10 @@ class Machine:
         self.buffers: List[MxArray] = []
         self.faults: List[str] = []
         self.freed: List[MxArray] = []
+        self.typed = False                                 # arithmetic conversions and byte-level stores are modelled
+        self.header = None                                 # HeaderAST: calls of functions defined in the header are followed
+        self.tmaps: List[Dict[str, str]] = [{}]            # template parameter -> type, per active call
+        self.depth = 0
 
     # ------------------------------------------------------------------ values
     def tick(self):
@@ -116,6 +203,26 @@ class Machine:
 
     def cell(self, p: Ptr, k: int) -> Ref:
         arr, idx = p.arr, p.off + k
+        if arr.raw is not None:
+            spec = p.ctype or MX_CLASSES.get(arr.cls)
+            if spec is None:
+                raise CUnknown("untyped access to byte storage")
+            lo, hi = idx * spec[0], (idx + 1) * spec[0]
+
+            def rget():
+                if lo < 0 or hi > len(arr.raw):
+                    arr.oob.append(f"read of bytes {lo}..{hi - 1} of an array of {len(arr.raw)} byte(s)")
+                    return 0
+                return raw_decode(arr.raw[lo:hi], spec)
+
+            def rset(v):
+                if lo < 0 or hi > len(arr.raw):
+                    arr.oob.append(f"write to bytes {lo}..{hi - 1} of an array of {len(arr.raw)} byte(s)")
+                    return
+                if not isinstance(v, (int, float, bool)):
+                    raise CUnknown("store of a value that is not a number into byte storage")
+                arr.raw[lo:hi] = raw_encode(v, spec)
+            return Ref(rget, rset)
 
         def get():
             if 0 <= idx < len(arr.data):
@@ -183,7 +290,23 @@ class Machine:
         k = n.get("kind")
         inner = [c for c in (n.get("inner") or []) if isinstance(c, dict) and c]
         if k in _TRANSPARENT:
-            return self.ev(inner[-1]) if inner else None
+            if not self.typed or k not in ("ImplicitCastExpr", "CStyleCastExpr", "CXXStaticCastExpr", "CXXReinterpretCastExpr", "CXXFunctionalCastExpr"):
+                return self.ev(inner[-1]) if inner else None
+            ck = n.get("castKind")
+            if ck in ("LValueToRValue", "NoOp", "FunctionToPointerDecay", "ArrayToPointerDecay", "NullToPointer", "ConstructorConversion", "UserDefinedConversion") \
+                    or not inner:
+                return self.ev(inner[-1]) if inner else None
+            t = (n.get("type") or {})
+            tn = t.get("qualType", "")
+            if tn.rstrip().endswith("*"):
+                v = self.rv(inner[-1])
+                if isinstance(v, Ptr):
+                    spec = c_type(tn.rstrip()[:-1], self.tmaps[-1])
+                    return Ptr(v.arr, v.off, spec) if spec is not None and v.arr.raw is not None else v
+                return v
+            spec = c_type(tn, self.tmaps[-1]) or c_type(t.get("desugaredQualType", ""), self.tmaps[-1])
+            v = self.rv(inner[-1])
+            return c_convert(v, spec)
         if k == "IntegerLiteral":
             return int(n.get("value"))
         if k == "FloatingLiteral":
@@ -401,6 +524,46 @@ class Machine:
             return {"mxGetM": a.m, "mxGetN": a.n, "mxGetNumberOfElements": a.m * a.n, "mxGetData": Ptr(a), "mxGetPr": Ptr(a),
                     "mxIsDouble": a.cls == "mxDOUBLE_CLASS", "mxIsChar": a.cls == "mxCHAR_CLASS", "mxIsComplex": False, "mxGetClassID": a.cls,
                     "mxIsEmpty": a.m * a.n == 0}[nm]
+        if nm in ("mxGetScalar", "mxCreateDoubleScalar", "mxCreateLogicalScalar", "mxCreateNumericArray") or \
+                (nm == "mxCreateNumericMatrix" and self.typed):
+            if nm == "mxGetScalar":
+                a = self.rv(args[0])
+                if not isinstance(a, MxArray):
+                    raise CUnknown("mxGetScalar of something that is not a sample array")
+                v = a.element(0)
+                if v is None:
+                    a.oob.append("mxGetScalar of an empty array")
+                    return 0.0
+                if not isinstance(v, (int, float, bool)):
+                    return v
+                return float(v)                             # documented: the first element converted to double
+            if nm == "mxCreateDoubleScalar":
+                a = MxArray.numeric("mxDOUBLE_CLASS", [float(self.rv(args[0]))], dims=[1, 1])
+            elif nm == "mxCreateLogicalScalar":
+                a = MxArray.numeric("mxLOGICAL_CLASS", [bool(self.rv(args[0]))], dims=[1, 1])
+            else:
+                if nm == "mxCreateNumericArray":
+                    nd, dp, cls_ = self.rv(args[0]), self.rv(args[1]), self.rv(args[2])
+                    if not (isinstance(nd, int) and isinstance(dp, Ptr)):
+                        raise CUnknown("mxCreateNumericArray with dimensions the interpreter cannot follow")
+                    dims = [self.cell(dp, i_).get() for i_ in range(nd)]
+                    if not all(isinstance(d_, int) and 0 <= d_ < 1000 for d_ in dims):
+                        raise CUnknown("mxCreateNumericArray with dimensions the interpreter cannot follow")
+                    if len(dims) == 1:
+                        dims = dims + [1]                  # MATLAB arrays have at least two dimensions
+                else:
+                    m_, n_, cls_ = self.rv(args[0]), self.rv(args[1]), self.rv(args[2])
+                    if not (isinstance(m_, int) and isinstance(n_, int)):
+                        raise CUnknown("array created with sizes the interpreter cannot follow")
+                    dims = [m_, n_]
+                if cls_ not in MX_CLASSES:
+                    raise CUnknown(f"array of class {cls_}")
+                cnt = 1
+                for d_ in dims:
+                    cnt *= d_
+                a = MxArray.numeric(cls_, [0] * cnt, dims=dims)
+            self.created.append(a)
+            return a
         if nm == "mxArrayToString":
             a = self.rv(args[0])
             if not isinstance(a, MxArray):
@@ -474,7 +637,55 @@ class Machine:
             a = MxArray(m, k_)
             self.created.append(a)
             return a
+        if self.header is not None and nm and self.depth < 4:
+            cands = [g for g in self.header.functions(nm) if len([p for p in g.get("inner", []) if p.get("kind") == "ParmVarDecl"]) == len(args)]
+            if len(cands) == 1:
+                return self.call_defined(cands[0], n, args)
         raise CUnknown(f"call of {nm}")
+
+    def call_defined(self, g, call, args):
+        """Runs a function defined in the header with the evaluated arguments; a template's parameter is bound to the type the
+        call instantiates it with (read off the callee's function type)."""
+        from .clangx import strip as _strip
+        params = [p for p in g.get("inner", []) if p.get("kind") == "ParmVarDecl"]
+        vals = [self.rv(a) for a in args]
+        tmap: Dict[str, str] = {}
+        fn_ref = _strip((call.get("inner") or [{}])[0])
+        inst = ((fn_ref.get("referencedDecl") or {}).get("type") or fn_ref.get("type") or {}).get("qualType", "")
+        pat = (g.get("type") or {}).get("qualType", "")
+        if inst and pat and inst != pat and "(" in inst and "(" in pat:
+            ri, rp = inst[:inst.index("(")].strip(), pat[:pat.index("(")].strip()
+            if rp.isidentifier() and rp != ri:
+                tmap[rp] = ri
+            for pi_, pp_ in zip(inst[inst.index("(") + 1:inst.rindex(")")].split(","), pat[pat.index("(") + 1:pat.rindex(")")].split(",")):
+                pi_, pp_ = pi_.replace("const ", "").replace("&", "").strip(), pp_.replace("const ", "").replace("&", "").strip()
+                if pp_.isidentifier() and pp_ != pi_ and pp_ not in C_TYPES and pp_ not in C_ALIASES:
+                    tmap[pp_] = pi_
+        saved = self.env
+        self.env = {p.get("name"): v for p, v in zip(params, vals)}
+        self.tmaps.append(tmap)
+        self.depth += 1
+        try:
+            for st in statements(g):
+                self.run(st)
+            return None
+        except _Ret as r:
+            rt_ = (g.get("type") or {}).get("qualType", "")
+            spec = c_type(rt_[:rt_.index("(")].strip(), tmap) if "(" in rt_ and self.typed else None
+            return c_convert(r.v, spec)
+        finally:
+            self.depth -= 1
+            self.tmaps.pop()
+            self.env = saved
+
+    def case_label(self, e):
+        """The value of a case label: the enumerator's name where it is one (class ids are compared by name), else its number."""
+        x = e
+        while isinstance(x, dict) and x.get("kind") in _TRANSPARENT + ("ConstantExpr",) and x.get("inner"):
+            x = x["inner"][-1]
+        if x.get("kind") == "DeclRefExpr":
+            return (x.get("referencedDecl") or {}).get("name")
+        return self.rv(e)
 
     # ------------------------------------------------------------------ statements
     def run(self, st):
@@ -535,6 +746,31 @@ class Machine:
                 self.run(inner[1])
             elif len(inner) > 2:
                 self.run(inner[2])
+        elif k == "SwitchStmt":
+            cond = self.rv(inner[-2])
+            body = inner[-1]
+            flat: List = []                                # (label or None, statement) in order; nested `case a: case b: stmt` unfolded
+
+            def unfold(st_):
+                if st_.get("kind") in ("CaseStmt", "DefaultStmt"):
+                    sub = [c for c in (st_.get("inner") or []) if isinstance(c, dict) and c]
+                    lab = "default" if st_.get("kind") == "DefaultStmt" else self.case_label(sub[0])
+                    flat.append((lab, None))
+                    unfold(sub[-1])
+                else:
+                    flat.append((None, st_))
+            for st_ in [c for c in (body.get("inner") or []) if isinstance(c, dict) and c]:
+                unfold(st_)
+            start = next((i_ for i_, (lab, _) in enumerate(flat) if lab is not None and lab != "default" and lab == cond), None)
+            if start is None:
+                start = next((i_ for i_, (lab, _) in enumerate(flat) if lab == "default"), None)
+            if start is not None:
+                try:
+                    for lab, st_ in flat[start:]:
+                        if st_ is not None:
+                            self.run(st_)
+                except _Brk:
+                    pass
         elif k == "ReturnStmt":
             raise _Ret(self.rv(inner[0]) if inner and inner[0] else None)
         elif k == "BreakStmt":
@@ -547,9 +783,11 @@ class Machine:
             self.rv(st)
 
 
-def run_function(f: dict, args: Dict[str, object], budget: int = 20000):
-    """Runs FunctionDecl f with the given values for its parameters; returns (result, machine)."""
+def run_function(f: dict, args: Dict[str, object], budget: int = 20000, typed: bool = False, header=None):
+    """Runs FunctionDecl f with the given values for its parameters; returns (result, machine).  typed: arithmetic conversions
+    and byte-level stores are modelled (LP64, little-endian); header: calls of functions the header defines are followed."""
     m = Machine(budget)
+    m.typed, m.header = typed, header
     params = [p for p in f.get("inner", []) if p.get("kind") == "ParmVarDecl"]
     for p in params:
         if p.get("name") not in args:
